@@ -68,12 +68,13 @@ def main(argv):
                                     sort_keys=True, default=str) for c in kents)
         known_regions = [c["region"] for c in kents if isinstance(c, dict) and c.get("region")]
 
-        def in_known(case, key):
+        def in_known(case, key, detail=""):
             if key in known_keys:
                 return True
             for expr in known_regions:
                 try:
-                    if eval(expr, {"json": json, "case": case, "text": json.dumps(case, sort_keys=True, default=str)}):
+                    if eval(expr, {"json": json, "case": case, "detail": str(detail),
+                                   "text": json.dumps(case, sort_keys=True, default=str)}):
                         return True
                 except Exception:
                     pass
@@ -96,7 +97,7 @@ def main(argv):
                 if key not in seen:
                     seen.add(key)
                     rec["distinct"] += 1
-                if not ok and in_known(case, key):
+                if not ok and in_known(case, key, detail):
                     if case not in rec["known_failing"]:
                         rec["known_failing"].append(case)
                     continue
